@@ -185,7 +185,7 @@ def step (args : List String) : String :=
       | R.ok m0 =>
         if ms ≠ 0 ∧ body.length > ms then "M rej | S skip" else
         let (steps, rcs, r) := runSteps (ofParsed ms m0 body) calls
-        "M " ++ finishM p steps r ++ " | S " ++
+        "M start=" ++ toString body.length ++ "." ++ hex8 (fnv32 body) ++ " " ++ finishM p steps r ++ " | S " ++
           (match Spec.decode p wire with
            | some s0 => if r.isSome then finishS p s0 calls rcs else "skip"
            | none => "skip")
